@@ -69,6 +69,9 @@ pub struct Cfg {
   pub max_align: usize,
   pub cap: u32,
   pub magic: u16,
+  /// file backend only: the arena starts at this (page-aligned) offset of the file
+  #[serde(default)]
+  pub file_offset: u32,
 }
 
 impl Cfg {
@@ -82,6 +85,7 @@ impl Cfg {
       max_align: 16,
       cap,
       magic: 0,
+      file_offset: 0,
     }
   }
 
@@ -94,6 +98,7 @@ impl Cfg {
       .with_minimum_segment_size(self.min_seg)
       .with_maximum_alignment(self.max_align)
       .with_magic_version(self.magic)
+      .with_offset(self.file_offset as u64)
   }
 
   /// effective layout (files are always unified)
